@@ -279,6 +279,53 @@ fn c08_sparse_rows(ctx: &mut Ctx) {
     }
 }
 
+/// A QUANTIFIED key (all(k), of(k, n)) written next to another key in one entry of a sequence whose
+/// entries share a field (a table once the matrix pass has run): the quantifier still counts the
+/// members of its list — every mask with the matrix pass.
+fn c08_quantified_key_in_rows(ctx: &mut Ctx) {
+    use crate::suites::{t_and, t_of, t_or, Tri};
+    let members = ["a*", "*b", "*x*"];
+    let kvals = ["ab", "axb", "ax", "xb", "b", "zz", ""];
+    let mut docs: Vec<Yaml> = vec![];
+    for k in kvals { for j in [1u64, 2] { docs.push(mapn2(vec![("k", ys(k)), ("j", Yaml::Number(j.into()))])); } }
+    docs.push(mapn2(vec![("j", Yaml::Number(1u64.into()))]));
+    let masks = vec![0u64, 8, 10, 12, 14, 15, 9, 11];
+    let mut keys: Vec<(String, Box<dyn Fn(&[Tri]) -> Tri>)> = vec![("all(k)".into(), Box::new(|v| t_and(v)))];
+    for n in 0..=3usize { keys.push((format!("of(k, {})", n), Box::new(move |v| t_of(n, v)))); }
+    for (key, table) in keys {
+        for swapped in [false, true] {
+            let list = Yaml::Sequence(members.iter().map(|m| ys(m)).collect());
+            let e1 = if swapped { mapn2(vec![("j", Yaml::Number(1u64.into())), (&key, list.clone())]) } else { mapn2(vec![(&key, list.clone()), ("j", Yaml::Number(1u64.into()))]) };
+            let rows = Yaml::Sequence(vec![e1, mapn2(vec![("k", ys("zz")), ("j", Yaml::Number(2u64.into()))]), mapn2(vec![("j", Yaml::Number(7u64.into()))])]);
+            let c = case_of(vec![("X".into(), rows), ("condition".into(), ys("X"))], docs.clone(), masks.clone());
+            let (ex, p) = run_rule_case(ctx, &c, false);
+            let p = match p {
+                Some(p) if p.load == "ok" => p,
+                _ => continue,
+            };
+            ctx.nontrivial.insert(hash_str(&ex.line));
+            'mm: for mask in &masks {
+                let got = verdicts_of(&p, *mask);
+                for (jd, d) in docs.iter().enumerate() {
+                    let kv = d.as_mapping().and_then(|m| m.get(ys("k"))).and_then(|v| v.as_str());
+                    let jv = d.as_mapping().and_then(|m| m.get(ys("j"))).and_then(|v| v.as_u64());
+                    let mem: Vec<Tri> = members.iter().map(|m| match kv { Some(h) => if crate::suites::pattern_rel(m, h) == Some(true) { Tri::T } else { Tri::F }, None => Tri::M }).collect();
+                    let q = table(&mem);
+                    let j1 = match jv { Some(1) => Tri::T, Some(_) => Tri::F, None => Tri::M };
+                    let row0 = if swapped { t_and(&[j1, q]) } else { t_and(&[q, j1]) };
+                    let row1 = t_and(&[match kv { Some("zz") => Tri::T, Some(_) => Tri::F, None => Tri::M }, match jv { Some(2) => Tri::T, Some(_) => Tri::F, None => Tri::M }]);
+                    let row2 = match jv { Some(7) => Tri::T, Some(_) => Tri::F, None => Tri::M };
+                    let want = t_or(&[row0, row1, row2]) == Tri::T;
+                    if got[jd] != want {
+                        ctx.violation("oracle", &format!("`{}` next to `j: 1` in one entry of a sequence (mask {}): document {} gives {}, the members are {:?}", key, mask, serde_yaml::to_string(d).unwrap_or_default().replace('\n', " "), got[jd], mem), &ex, &rule_yaml(&c), true);
+                        break 'mm;
+                    }
+                }
+            }
+        }
+    }
+}
+
 pub fn run_c08(ctx: &mut Ctx, known: &Known) {
     // recorded witnesses first (member lists stored in known_findings.json)
     for f in known.for_prop("C08") {
@@ -308,6 +355,7 @@ pub fn run_c08(ctx: &mut Ctx, known: &Known) {
         }
     }
     c08_sparse_rows(ctx);
+    c08_quantified_key_in_rows(ctx);
     // numbers of every spelling as members: a whole-valued float member is still a FLOAT member
     // (it holds for the double 2.0, not for the integer 2), alone and next to others
     {
@@ -927,6 +975,27 @@ pub fn run_c11(ctx: &mut Ctx, _known: &Known) {
                 if reps.iter().any(|(_, b)| *b != reps[0].1) {
                     let dummy = ctx.exchange("tok s:");
                     ctx.violation("oracle", &format!("rule `{}` ({}, mask {}): verdicts differ between representations: {:?}", body, cond, mask, reps), &dummy, &text, true);
+                }
+            }
+        }
+        for (body, cond, ytext) in [("process.name: cmd.exe", "A", "{process.name: cmd.exe}"), ("process.name: cmd.exe", "not A", "{process.name: cmd.exe}"), ("args[0]: x", "A", "{'args[0]': x}"), ("process.name: cmd.exe", "A", "{process.name: other, process: {name: cmd.exe}}"), ("a.b.c: 1", "A", "{a.b.c: 1}"), ("a.b.c: 1", "A", "{a: {b.c: 1}}"), ("int(n.v): '>3'", "A", "{n.v: 7}"), ("process:\n      name: cmd.exe", "A", "{process.name: cmd.exe}")] {
+            let text = format!("detection:\n  A:\n    {}\n  condition: {}\ntrue_positives: []\ntrue_negatives: []\n", body, cond);
+            let rule = match Rule::from_str(&text) { Ok(r) => r, Err(_) => continue };
+            for mask in [0u64, 15] {
+                let rl = if mask == 0 { rule.clone() } else { rule.clone().optimise(implside::opts(mask)) };
+                ctx.evaluations += 1;
+                ctx.nontrivial.insert(hash_str(&format!("flat{}{}{}{}", body, cond, ytext, mask)));
+                let yv: Yaml = serde_yaml::from_str(ytext).unwrap();
+                let ym = yv.as_mapping().unwrap().clone();
+                let js = json_of_yaml(&yv).unwrap();
+                let jm: serde_json::Map<String, serde_json::Value> = js.as_object().cloned().unwrap_or_default();
+                let hm: HashMap<String, serde_json::Value> = jm.iter().map(|(k, v)| (k.clone(), v.clone())).collect();
+                let my = match my_of_yaml(&yv) { MyVal::Obj(o) => o, _ => continue };
+                let dynobj: &dyn Object = &my;
+                let reps = [("yaml mapping", rl.matches(&ym)), ("serde_json value", rl.matches(&js)), ("serde_json map", rl.matches(&jm)), ("HashMap<String, serde_json::Value>", rl.matches(&hm)), ("hand-written Object", rl.matches(&my)), ("&dyn Object", rl.matches(&dynobj)), ("hand-written Document", rl.matches(&HandDoc(my.clone())))];
+                if reps.iter().any(|(_, b)| *b != reps[0].1) {
+                    let dummy = ctx.exchange("tok s:");
+                    ctx.violation("oracle", &format!("rule `{}` ({}, mask {}) on {} (a key NAMED like a path): verdicts differ between representations: {:?}", body.replace('\n', " "), cond, mask, ytext, reps), &dummy, &text, true);
                 }
             }
         }
@@ -2352,7 +2421,7 @@ pub fn run_c15(ctx: &mut Ctx, _known: &Known) {
         let mut c = gen_case(&mut r, vec![0, 15], 4);
         if r.chance(25) {
             // text that starts or ends with white space, or with the letter i itself
-            let ws = [" a*", " a", "\ta", "a ", " *", " -enc*", "  ab", "*b ", "iis", "i*", "ii", " i", "i a"];
+            let ws = [" a*", " a", "\ta", "a ", " *", " -enc*", "  ab", "*b ", "iis", "i*", "ii", " i", "i a", "\\inetpub\\*", "\\ipc$", "*\\intel\\*", "\\i", "\\I*"];
             let v = if r.chance(60) { ys(*r.pick(&ws)) } else { Yaml::Sequence(vec![ys(*r.pick(&ws)), ys(*r.pick(&ws))]) };
             c.det.push(("W".into(), map1("s", v)));
             for (k, cv) in c.det.iter_mut() {
@@ -2362,7 +2431,7 @@ pub fn run_c15(ctx: &mut Ctx, _known: &Known) {
                     }
                 }
             }
-            for t in [" a", "a", " -enc x", "  AB", "xb ", "IIS", " I", "i A", "\tA"] {
+            for t in [" a", "a", " -enc x", "  AB", "xb ", "IIS", " I", "i A", "\tA", "\\inetpub\\wwwroot", "inetpub\\wwwroot", "\\IPC$", "ipc$", "c:\\intel\\x", "\\i", "i"] {
                 c.docs.push(map1("s", ys(t)));
             }
         }
